@@ -1,14 +1,18 @@
-(** C09 — lock discipline of the control LTS: every plain access to a mailbox or a notifier flag
-    is made inside a critical section of that object's mutex, hence no schedule has a data race
-    on those locations; and the F9 schedules: races on [search] / [quitFlag]. *)
+(** C09 — lock discipline of the control LTS: every access to a mailbox, a notifier flag,
+    pendingOptions or optionsSetFinished is made inside a critical section of the guarding mutex,
+    and search / quitFlag / ponder are only accessed atomically: no schedule has a data race on
+    any of those locations. *)
 From Coq Require Import ZArith List Bool Arith Lia Relations.
 From Texel Require Import Workers.Workers Workers.Race Workers.RaceProofs Workers.Access.
 Import ListNotations.
 
 Definition guarded (l : loc) : bool :=
-  match l with LQueue _ | LFlag _ => true | _ => false end.
+  match l with LQueue _ | LFlag _ | LPend | LFin => true | _ => false end.
 Definition mof (l : loc) : mutex :=
   match l with LQueue x => MQ x | LFlag x => MN x | _ => ME end.
+(** locations that are std::atomic objects *)
+Definition atomic_loc (l : loc) : bool :=
+  match l with LSearch | LQuit | LPonder => true | _ => false end.
 
 Definition rm_mutex (m : mutex) (l : list mutex) : list mutex :=
   filter (fun x => negb (mutex_eqb m x)) l.
@@ -22,7 +26,7 @@ Fixpoint blk_ok (t : tid) (held : list mutex) (l : list tev) : bool :=
   | Rel t' m :: r => Nat.eqb t' t && mem_mutex m held && blk_ok t (rm_mutex m held) r
   | Acc t' lc w a :: r =>
       Nat.eqb t' t && (if guarded lc then mem_mutex (mof lc) held else true) &&
-      (match lc with LPonder => a | _ => true end) &&
+      (if atomic_loc lc then negb (is_plain a) else true) &&
       blk_ok t held r
   end.
 
@@ -90,12 +94,13 @@ Proof.
       * split; [right; exists (S a); split; [lia|auto]|]. exists (S r). split; [lia|auto].
 Qed.
 
-Lemma blk_ponder : forall t l held i t' w a, blk_ok t held l = true ->
-  nth_error l i = Some (Acc t' LPonder w a) -> a = true.
+Lemma blk_atomic : forall t l held i t' lc w a, blk_ok t held l = true ->
+  nth_error l i = Some (Acc t' lc w a) -> atomic_loc lc = true -> is_plain a = false.
 Proof.
-  induction l as [|x l IH]; intros held i t' w a H Hi; [destruct i; discriminate|].
+  induction l as [|x l IH]; intros held i t' lc w a H Hi Ha; [destruct i; discriminate|].
   destruct i as [|i]; simpl in Hi.
-  - injection Hi as ->. simpl in H. repeat (apply andb_prop in H; destruct H as [H ?]). auto.
+  - injection Hi as ->. simpl in H. rewrite Ha in H.
+    repeat (apply andb_prop in H; destruct H as [H ?]). now apply negb_true_iff.
   - destruct x; simpl in H; repeat (apply andb_prop in H; destruct H as [H ?]); eapply IH; eauto.
 Qed.
 
@@ -134,47 +139,16 @@ Qed.
 Lemma good_nil : good [].
 Proof. intros i t lc w at0 Hi. destruct i; discriminate. Qed.
 
-Section L.
-Variable N : nat.
-Variable parent : tid -> option tid.
-
-Ltac blk := repeat (cbn; rewrite ?Nat.eqb_refl); try reflexivity.
-Lemma push_blk : forall t x, blk_ok t [] (push_events t x) = true.
-Proof. intros. blk. Qed.
-Lemma notify_blk : forall t x, blk_ok t [] (notify_events t x) = true.
-Proof. intros. blk. Qed.
-
-Lemma label_blk : forall s lb, exists t, blk_ok t [] (label_events N parent s lb) = true.
-Proof.
-  intros s [t a|e].
-  - exists t. destruct a; try (blk; fail).
-    + simpl. destruct (hasres (th s t)); [reflexivity|]. destruct (parent t); [apply push_blk|reflexivity].
-    + simpl. destruct (quitf s); blk.
-    + simpl. destruct (search s); blk.
-  - exists (uci N). destruct e; blk.
-Qed.
-
-Lemma trace_good : forall ls s tr, trace_of N parent s ls = Some tr -> good tr.
-Proof.
-  induction ls as [|lb ls IH]; intros s tr H; simpl in H.
-  - injection H as <-. apply good_nil.
-  - destruct (lstep N parent s lb) as [s'|]; [|discriminate].
-    destruct (trace_of N parent s' ls) as [tr'|] eqn:E; [|discriminate].
-    injection H as <-. destruct (label_blk s lb) as (t & Ht).
-    eapply good_app; eauto.
-Qed.
-End L.
-
 (** ---- from the lock discipline to race freedom ---- *)
 Lemma conflictb_inv : forall a b, conflictb a b = true ->
   exists t1 l w1 a1 t2 w2 a2, a = Acc t1 l w1 a1 /\ b = Acc t2 l w2 a2 /\ t1 <> t2 /\
-                              (a1 && a2 = false).
+                              (is_plain a1 || is_plain a2 = true).
 Proof.
   intros a b H. destruct a as [t1 l1 w1 a1| |]; try discriminate.
   destruct b as [t2 l2 w2 a2| |]; try discriminate. simpl in H.
   repeat (apply andb_prop in H; destruct H as [H ?]).
   apply loc_eqb_eq in H. subst l2. apply negb_true_iff in H2. apply Nat.eqb_neq in H2.
-  apply negb_true_iff in H0. exists t1, l1, w1, a1, t2, w2, a2. auto.
+  exists t1, l1, w1, a1, t2, w2, a2. auto.
 Qed.
 
 Theorem good_no_race : forall tr, good tr -> ~ race_on tr guarded.
@@ -184,7 +158,6 @@ Proof.
   simpl in Hs. unfold at_ in *.
   destruct (G i t1 l w1 a1 Ha Hs) as ((r & Hr & Er & Sr) & _).
   destruct (G j t2 l w2 a2 Hb Hs) as (_ & (q & Hq & Eq & Sq)).
-  (* r < q: the two same-thread stretches cannot overlap *)
   assert (Hjr : r < j).
   { destruct (Nat.lt_ge_cases r j); auto. exfalso.
     assert (X : ev_tid (Acc t2 l w2 a2) = t1) by (apply (Sr j); auto; lia). simpl in X. congruence. }
@@ -195,79 +168,102 @@ Proof.
   apply t_trans with r.
   - apply t_step. left. split; auto. exists (Acc t1 l w1 a1), (Rel t1 (mof l)). auto.
   - apply t_trans with q.
-    + apply t_step. right. split; auto. exists t1, t2, (mof l). auto.
+    + apply t_step. right. left. split; auto. exists t1, t2, (mof l). auto.
     + apply t_step. left. split; auto. exists (Acq t2 (mof l)), (Acc t2 l w2 a2). auto.
 Qed.
 
-(** the ponder / infinite flags are only accessed atomically *)
-Definition ponder_atomic (tr : list tev) : Prop :=
-  forall i t w a, nth_error tr i = Some (Acc t LPonder w a) -> a = true.
+(** the std::atomic locations are only accessed atomically *)
+Definition atomic_ok (tr : list tev) : Prop :=
+  forall i t lc w a, nth_error tr i = Some (Acc t lc w a) -> atomic_loc lc = true -> is_plain a = false.
 
-Lemma ponder_app : forall t B rest, blk_ok t [] B = true -> ponder_atomic rest -> ponder_atomic (B ++ rest).
+Lemma atomic_app : forall t B rest, blk_ok t [] B = true -> atomic_ok rest -> atomic_ok (B ++ rest).
 Proof.
-  intros t B rest HB HR i t' w a Hi.
+  intros t B rest HB HR i t' lc w a Hi Ha.
   destruct (Nat.lt_ge_cases i (length B)).
-  - rewrite nth_error_app1 in Hi by auto. eapply blk_ponder; eauto.
+  - rewrite nth_error_app1 in Hi by auto. eapply blk_atomic; eauto.
   - rewrite nth_error_app2 in Hi by auto. eapply HR; eauto.
 Qed.
 
-Lemma trace_ponder : forall N parent ls s tr, trace_of N parent s ls = Some tr -> ponder_atomic tr.
+Theorem atomic_no_race : forall tr, atomic_ok tr -> ~ race_on tr atomic_loc.
 Proof.
-  induction ls as [|lb ls IH]; intros s tr H; simpl in H.
-  - injection H as <-. intros i t w a Hi. destruct i; discriminate.
-  - destruct (lstep N parent s lb) as [s'|]; [|discriminate].
-    destruct (trace_of N parent s' ls) as [tr'|] eqn:E; [|discriminate].
-    injection H as <-. destruct (label_blk N parent s lb) as (t & Ht).
-    eapply ponder_app; eauto.
+  intros tr A (i & j & a & b & Hij & Ha & Hb & Hc & Hs & Hn).
+  destruct (conflictb_inv a b Hc) as (t1 & l & w1 & a1 & t2 & w2 & a2 & -> & -> & Hne & Hp).
+  simpl in Hs. unfold at_ in *.
+  rewrite (A i _ _ _ _ Ha Hs), (A j _ _ _ _ Hb Hs) in Hp. discriminate.
 Qed.
 
-(** ---- the theorems ---- *)
+Section L.
+Variable N : nat.
+Variable parent : tid -> option tid.
+Variable gp : bool.
 
-(** for every number of helpers, tree and schedule: no data race on any mailbox or notifier flag *)
-Theorem model_guarded_drf : forall N parent s ls tr,
-  trace_of N parent s ls = Some tr -> ~ race_on tr guarded.
-Proof. intros. apply good_no_race. eapply trace_good; eauto. Qed.
+Ltac blk := repeat (cbn; rewrite ?Nat.eqb_refl); try reflexivity.
+Lemma push_blk : forall t x, blk_ok t [] (push_events t x) = true.
+Proof. intros. blk. Qed.
 
-(** ... and the only locations of the model on which any schedule can race are [search],
-    [quitFlag] and the search parameters handed over together with [search] *)
-Definition f9_loc (l : loc) : bool :=
-  match l with LSearch | LQuit | LParams => true | _ => false end.
-
-Theorem model_races_only_f9 : forall N parent s ls tr,
-  trace_of N parent s ls = Some tr -> ~ race_on tr (fun l => negb (f9_loc l)).
+Lemma xevents_blk : forall x xl, exists t, blk_ok t [] (xevents N parent gp x xl) = true.
 Proof.
-  intros N parent s ls tr H (i & j & a & b & Hij & Ha & Hb & Hc & Hs & Hn).
-  destruct (conflictb_inv a b Hc) as (t1 & l & w1 & a1 & t2 & w2 & a2 & -> & -> & Hne & Hat).
-  simpl in Hs. destruct l; simpl in Hs; try discriminate.
-  - apply (model_guarded_drf N parent s ls tr H). exists i, j, (Acc t1 (LQueue t) w1 a1), (Acc t2 (LQueue t) w2 a2).
-    repeat split; auto.
-  - apply (model_guarded_drf N parent s ls tr H). exists i, j, (Acc t1 (LFlag t) w1 a1), (Acc t2 (LFlag t) w2 a2).
-    repeat split; auto.
-  - pose proof (trace_ponder N parent ls s tr H) as P. unfold at_ in *.
-    rewrite (P i _ _ _ Ha), (P j _ _ _ Hb) in Hat. discriminate.
+  intros x [[t a|e]| | |].
+  - exists t. destruct a; try (blk; fail).
+    + simpl. destruct t; [blk|]. destruct (pc (th (base x) (S t))); try (blk; fail).
+      destruct k; try (blk; fail).
+      destruct (negb (qa (th (base x) (S t)) =? 0)%Z && negb (job (th (base x) (S t)) =? -1)%Z); blk.
+    + simpl. destruct (hasres (th (base x) t)); [reflexivity|]. destruct (parent t); [apply push_blk|reflexivity].
+    + simpl. destruct (search (base x)); blk.
+  - exists (uci N). destruct e; try (blk; fail).
+    simpl. destruct (go_waits gp p); blk.
+  - exists (uci N). blk.
+  - exists 0. simpl. destruct (xpend x); blk.
+  - exists 0. blk.
 Qed.
 
-(** F9: EngineMainThread::mainLoop reads [search] and [quitFlag] without the mutex that guards
-    their writers; after a stale notification (setoption followed at once by go / quit) the read
-    is concurrent with the write *)
+Lemma xrun_good : forall ls x xf tr, xrun N parent gp x ls = Some (xf, tr) -> good tr /\ atomic_ok tr.
+Proof.
+  induction ls as [|xl ls IH]; intros x xf tr H; simpl in H.
+  - injection H as <- <-. split; [apply good_nil|]. intros i t lc w a Hi. destruct i; discriminate.
+  - destruct (xstep N parent gp x xl) as [x'|]; [|discriminate].
+    destruct (xrun N parent gp x' ls) as [[xf' tr']|] eqn:E; [|discriminate].
+    injection H as <- <-. destruct (IH _ _ _ E) as (G & A). destruct (xevents_blk x xl) as (t & Ht).
+    split; [eapply good_app; eauto | eapply atomic_app; eauto].
+Qed.
+
+(** for every number of helpers, tree, start state and schedule (and both variants of go ponder):
+    no data race on a mailbox, a notifier flag, pendingOptions or optionsSetFinished ... *)
+Theorem model_guarded_drf : forall x ls tr,
+  trace_of N parent gp x ls = Some tr -> ~ race_on tr guarded.
+Proof.
+  intros x ls tr H. unfold trace_of in H.
+  destruct (xrun N parent gp x ls) as [[xf tr']|] eqn:E; [|discriminate].
+  injection H as <-. apply good_no_race. eapply xrun_good; eauto.
+Qed.
+
+(** ... nor on search, quitFlag, ponder/infinite (atomic objects) *)
+Theorem model_atomic_drf : forall x ls tr,
+  trace_of N parent gp x ls = Some tr -> ~ race_on tr atomic_loc.
+Proof.
+  intros x ls tr H. unfold trace_of in H.
+  destruct (xrun N parent gp x ls) as [[xf tr']|] eqn:E; [|discriminate].
+  injection H as <-. apply atomic_no_race. eapply xrun_good; eauto.
+Qed.
+End L.
+
+(** ---- the hand-shake matters: without the wait in go ponder the model races ---- *)
 Definition par0 : tid -> option tid := fun _ => None.
-Definition is_search (l : loc) : bool := match l with LSearch => true | _ => false end.
-Definition is_quit (l : loc) : bool := match l with LQuit => true | _ => false end.
-Definition is_params (l : loc) : bool := match l with LParams => true | _ => false end.
-Definition f9_search_sched : list label :=
-  [LE ESpur; LT 0 AWait; LT 0 ARdQuit; LE (EGo false); LT 0 ARdSearch].
-Definition f9_quit_sched : list label :=
-  [LE ESpur; LT 0 AWait; LE EQuit; LT 0 ARdQuit].
+Definition is_opt (l : loc) : bool := match l with LOpt => true | _ => false end.
+Definition is_tt (l : loc) : bool := match l with LTT => true | _ => false end.
+(** setoption; the engine thread wakes up and takes the option; go ponder does not wait; the
+    engine thread applies the option while / after the UCI thread set up the ponder search *)
+Definition noguard_sched : list xlabel :=
+  [XSetOpt; XL (LT 0 AWait); XL (LT 0 ARdQuit); XTake; XL (LE (EGo true)); XApply].
 
-Theorem model_drf_refuted :
-  (exists tr, trace_of 0 par0 init f9_search_sched = Some tr /\ race_on tr is_search /\ race_on tr is_params) /\
-  (exists tr, trace_of 0 par0 init f9_quit_sched = Some tr /\ race_on tr is_quit).
+Theorem unguarded_ponder_races :
+  exists tr, trace_of 0 par0 false (xinit) noguard_sched = Some tr /\ race_on tr is_opt /\ race_on tr is_tt.
 Proof.
-  split.
-  - destruct (trace_of 0 par0 init f9_search_sched) as [tr|] eqn:E; [|vm_compute in E; discriminate].
-    exists tr. split; auto. vm_compute in E. injection E as <-.
-    split; apply raceb_on_spec; vm_compute; reflexivity.
-  - destruct (trace_of 0 par0 init f9_quit_sched) as [tr|] eqn:E; [|vm_compute in E; discriminate].
-    exists tr. split; auto. vm_compute in E. injection E as <-.
-    apply raceb_on_spec; vm_compute; reflexivity.
+  destruct (trace_of 0 par0 false xinit noguard_sched) as [tr|] eqn:E; [|vm_compute in E; discriminate].
+  exists tr. split; auto. vm_compute in E. injection E as <-.
+  split; apply raceb_on_spec; vm_compute; reflexivity.
 Qed.
+
+(** the same schedule is not a path when go ponder waits (the guard [optionsSetFinished]) *)
+Example guarded_ponder_blocks : trace_of 0 par0 true xinit noguard_sched = None.
+Proof. vm_compute. reflexivity. Qed.
